@@ -27,6 +27,9 @@
 // send function records the JSON each executor would get instead of calling Mesos.
 // The Lean driver checks the launch section as a monitor (it is environment-determined which ports there are)
 // and predicts the configure section from it.
+//
+// A second input form, (hosts classes ttree sw), describes a workflow TEMPLATE (iterator roles, templated
+// names / connect targets / bind aliases) that is loaded with the real ProcessTemplates first: see tmpl.go.
 package c13
 
 import (
@@ -190,12 +193,22 @@ func classify(err error) string {
 	return "other"
 }
 
+// viperMu: viper is process-global and not safe for concurrent use. The template form
+// (tmpl.go) sets the loader's three concurrency switches per case under the write lock;
+// everything that may read viper (launch, BuildTaskCommand, the.ConfSvc) runs under the read lock.
+var viperMu sync.RWMutex
+
 func runImpl(input string) (string, error) {
 	setup()
 	in, err := sx.Parse(input)
 	if err != nil {
 		return "", err
 	}
+	if in.Len() == 4 {
+		return runTemplate(in)
+	}
+	viperMu.RLock()
+	defer viperMu.RUnlock()
 	hosts, classes, tree := in.At(0), in.At(1), in.At(2)
 
 	cap := &captured{args: map[string]map[string]string{}}
@@ -236,6 +249,14 @@ func runImpl(input string) (string, error) {
 		}
 	}
 	walk(tree)
+	return runLoaded(m, cap, root, envId, hosts, hostIdx, false)
+}
+
+// runLoaded: descriptors of the loaded role tree, launch of every task on its host, CONFIGURE.
+// withSeen adds a third section to the observation: what every descriptor carries as
+// RoleBind / RoleConnect (= Collect{In,Out}boundChannels of its task role).
+func runLoaded(m *task.Manager, cap *captured, root workflow.Role, envId uid.ID, hosts *sx.Node, hostIdx []int,
+	withSeen bool) (string, error) {
 
 	// one offer per host; tasks of a host share what remains of it
 	type hostState struct {
@@ -264,6 +285,12 @@ func runImpl(input string) (string, error) {
 	ds := root.GenerateTaskDescriptors()
 	if len(ds) != len(hostIdx) {
 		return "", fmt.Errorf("descriptors %d != task roles %d", len(ds), len(hostIdx))
+	}
+	seenDecls := sx.L()
+	if withSeen {
+		for _, d := range ds {
+			seenDecls.Add(sx.L(sx.A(d.TaskRole.GetPath()), seenIn(d.RoleBind), seenOut(d.RoleConnect)))
+		}
 	}
 	launch := sx.L()
 	var tasks task.Tasks
@@ -337,7 +364,11 @@ func runImpl(input string) (string, error) {
 		cfg = sx.L(sx.A("ok"), per)
 	}
 
-	out := sx.L(launch, cfg).String()
+	obs := sx.L(launch, cfg)
+	if withSeen {
+		obs.Add(seenDecls)
+	}
+	out := obs.String()
 	// fresh IPC paths embed an xid: rename by first appearance
 	seen := map[string]string{}
 	out = ipcRe.ReplaceAllStringFunc(out, func(s string) string {
@@ -668,6 +699,16 @@ func generate(tier string, r *rng.R) []fw.Case {
 	for i := 0; i < n; i++ {
 		cs = append(cs, genCase(r.Fork(), maxTasks))
 	}
+	// the template form (tmpl.go): fixed scenarios, then generated workflow templates with iterators
+	nt, maxT := 1500, 8
+	if tier == "thorough" {
+		nt, maxT = 20000, 12
+	}
+	cs = append(cs, templateScenarios()...)
+	rt := r.Fork()
+	for i := 0; i < nt; i++ {
+		cs = append(cs, genTemplateCase(rt.Fork(), maxT))
+	}
 	return cs
 }
 
@@ -676,7 +717,7 @@ func generate(tier string, r *rng.R) []fw.Case {
 // or it was rejected for a reason the property names.
 func nontrivial(input, obs string) bool {
 	o, err := sx.Parse(obs)
-	if err != nil || o.Len() != 2 {
+	if err != nil || (o.Len() != 2 && o.Len() != 3) {
 		return false
 	}
 	if o.At(0).Len() < 2 {
@@ -704,6 +745,9 @@ func shrinkCands(input string) []string {
 	in, err := sx.Parse(input)
 	if err != nil {
 		return nil
+	}
+	if in.Len() == 4 {
+		return shrinkTemplate(in)
 	}
 	var out []string
 	emit := func() { out = append(out, in.String()) }
@@ -762,16 +806,28 @@ func init() {
 			"targets = advertised path:channel 70% / alias 10% / explicit tcp:// ipc:// 12% / near-miss, unknown or empty 8%, template-level connect " +
 			"left without a role-level target 5%; every case runs the real YAML loaders, GenerateTaskDescriptors, makeTaskForMesosResources and " +
 			"configureTasks; non-trivial = >=2 tasks launched and (configuration sent with >=1 bind and >=1 connect entry, or rejected as " +
-			"unmatched / alias conflict); distinct by input text",
+			"unmatched / alias conflict); distinct by input text. " +
+			"Template form (tag tmpl, 12 fixed scenarios + 1500 generated, thorough 20000): workflow TEMPLATES with iterator roles " +
+			"(`for:` begin/end or range, 1..3 values, nested up to 2 deep, around task roles and around aggregators, occasionally re-using " +
+			"the outer variable's name), role names / connect targets / bind aliases written as expressions over {{ var }}, " +
+			"{{ Parent().Path }}, {{ Parent().Name }}, {{ This().Path }}, {{ This().Name }}: targets name the binder of the SAME iteration " +
+			"through shared variables or the parent's path, a fixed instance of a foreign iterator, a per-instance alias ::g-{{ it }}, an " +
+			"explicit tcp://far-{{ it }}…, or nothing (near-miss channel, unknown role); declarations at task-role level, one aggregator up, " +
+			"and in the task template (no target); loaded by the real YAML unmarshallers + ProcessTemplates under one of the 8 settings of " +
+			"the loader's concurrency switches (part of the input), then as above; the observation additionally carries, per generated task " +
+			"role, the RoleBind/RoleConnect of its descriptor with the resolved text; up to ~10 generated task roles spread over the hosts",
 		Shrink:  shrinkCands,
 		Workers: 8,
 		TrustedBase: []string{
 			"harness/props/c13 (YAML rendering of roles/classes, mesos.Offer construction, JSON capture of the CONFIGURE command, IPC path renaming)",
 			"core/task/verif_hook_c13.go, core/workflow/verif_hook_c13.go (wiring only: Manager without Mesos, access to makeTaskForMesosResources/configureTasks/setParent)",
 			"Driver/C13 parsing incl. YAML defaulting of absent transport/addressing, launch monitor",
+			"template form: rendering of expression segments to {{ … }} text, placement convention (j-th generated task role on host (base+j) mod #hosts), " +
+				"the template engine (fasttemplate + expr) as evaluator of the five expression forms; viper switches set under a process-wide lock",
 		},
 		Assumptions: []string{
-			"targets and aliases are plain strings at CONFIGURE time (workflow template processing has already run)",
+			"plain form: targets and aliases are plain strings; template form: expressions are concatenations of literals, iteration variables and " +
+				"Parent()/This() name/path accessors, every variable used is bound by an enclosing iterator, no `enabled:`/vars/defaults blocks",
 			"the tasks handed to configureTasks are the environment's task roles in tree order, each launched once",
 			"task classes are FAIRMQ or DIRECT (BASIC tasks receive no channel configuration)",
 		},
